@@ -237,7 +237,7 @@ func init() {
 	register(&propertySpec{
 		ID:      "C06",
 		Explain: "Static error-flow, must-pass-through and provenance rules for the write-through path between the in-memory state and core.Storage.",
-		Rules:   []ruleFn{ruleStoreErr, ruleStoreAck, rulePersistPrepared("C06"), ruleNsArg, ruleTxScope("storage/bolt"), ruleLoadAll, ruleLoadFresh, ruleRemOrder, ruleBoltErr, ruleParentsValue("C06"), ruleStoreBeforeMem("C06"), ruleRemStoreFirst("C06"), ruleHookBeforeStore("C06"), ruleFactIdxLast("C06"), ruleHooksBeforeLoad, ruleClearAck("C06"), ruleErrRedress("C06")},
+		Rules:   []ruleFn{ruleStoreErr, ruleStoreAck, rulePersistPrepared("C06"), ruleNsArg, ruleTxScope("storage/bolt"), ruleLoadAll, ruleLoadFresh, ruleRemOrder, ruleBoltErr, ruleParentsValue("C06"), ruleStoreBeforeMem("C06"), ruleRemStoreFirst("C06"), ruleHookBeforeStore("C06"), ruleFactIdxLast("C06"), ruleHooksBeforeLoad, ruleClearAck("C06"), ruleErrRedress("C06"), ruleIndexLoad("C06")},
 	})
 }
 
